@@ -88,8 +88,51 @@ def run(name, checks, tier):
         meta["detected_by"]["%s/%s" % (c, tier)] = r
     json.dump(meta, open(os.path.join(d, "meta.json"), "w"), indent=1)
 
+def reconfirm(name, newpatch):
+    """Re-confirms a stored seeded defect against /repo's current HEAD in a scratch clone (optionally with a re-based patch)."""
+    d = os.path.join(V, "seeded", name)
+    meta = json.load(open(os.path.join(d, "meta.json")))
+    patch = newpatch or os.path.join(d, "patch.diff")
+    wt = "/tmp/reconf-%d" % os.getpid()
+    shutil.rmtree(wt, ignore_errors=True)
+    try:
+        rc, out = sh("git clone -q /repo %s" % wt)
+        assert rc == 0, out
+        os.makedirs(os.path.join(wt, "tests"), exist_ok=True)
+        shutil.copy(os.path.join(d, "demo.rs"), os.path.join(wt, "tests/demo.rs"))
+        if os.path.exists("/repo/Cargo.lock"):
+            shutil.copy("/repo/Cargo.lock", os.path.join(wt, "Cargo.lock"))
+        demo = meta["demo_cmd"]
+        def step(desc, cmd, want_ok):
+            rc, out = sh(cmd, cwd=wt)
+            ok = (rc == 0)
+            print(("ok   " if ok == want_ok else "BAD  ") + desc + " (rc %d)" % rc)
+            if ok != want_ok:
+                print(out[-2500:])
+                raise SystemExit(1)
+            return out
+        step("demo PASSES without the change", demo, True)
+        step("apply", "git apply " + patch, True)
+        step("build", "cargo build --offline", True)
+        step("build --features verif", "cargo build --offline --features verif", True)
+        out = step("unit tests with the change", "cargo test --offline --lib", True)
+        assert "93 passed" in out
+        step("demo FAILS with the change", demo, False)
+        head = sh("git -C /repo rev-parse --short HEAD")[1].strip()
+        if newpatch:
+            shutil.copy(newpatch, os.path.join(d, "patch.diff"))
+            meta.setdefault("rebased", []).append({"onto": head, "why": "a later fix: commit in /repo touched the same lines; same change, re-applied by hand and re-confirmed"})
+        meta.setdefault("reconfirmed_at", []).append(head)
+        json.dump(meta, open(os.path.join(d, "meta.json"), "w"), indent=1)
+        print("reconfirmed", name, "at", head)
+    finally:
+        shutil.rmtree(wt, ignore_errors=True)
+
 if __name__ == "__main__":
     a = sys.argv[1:]
+    if a[0] == "reconfirm":
+        reconfirm(a[1], a[2] if len(a) > 2 else None)
+        sys.exit(0)
     if a[0] == "confirm":
         feats = a[a.index("--features") + 1] if "--features" in a else ""
         needs = a[a.index("--needs") + 1] if "--needs" in a else ""
